@@ -60,9 +60,34 @@ def c01(ctx, e):
             return
         first = dl[0]
         if later and first[1] == "value" and later[0] != (first[1], first[2]):
-            ctx.violation("replay-yields-different-outcome", f"{path}: first completion delivered {first[2][:60]}, replay {later[0][1][:60]}",
-                          scen_of(e))
-            return
+            # an oversized map / parallel result is rebuilt from the children's records: two named, unrepaired deviations of that
+            # rebuild (straggler statuses, error type) are the same defect as seen from C02 / C09 / C16
+            sig = None
+            if first[2].startswith("BatchResult[") and later[0][0] == "value":
+                from checks.executor_common import classify_batch_divergence
+                sig = classify_batch_divergence(first[2], later[0][1])
+            ctx.violation(sig or "replay-yields-different-outcome",
+                          f"{path}: first completion delivered {first[2][:60]}, replay {later[0][1][:60]}", scen_of(e))
+            if sig is None:
+                return
+
+
+    # ... and a replayed FAILURE raises the RECORDED error: message and type of the backend's error object
+    for path, dl in e.rec.delivered.items():
+        rec = e.backend.ops.get(path_id(path))
+        if rec is None or rec.get("Status") != "FAILED" or rec.get("Type") not in ("STEP", "CONTEXT") or not isinstance(rec.get("_error"), dict):
+            continue
+        want_msg, want_type = rec["_error"].get("ErrorMessage"), rec["_error"].get("ErrorType")
+        for (_, k, r) in dl[1:]:
+            if k != "error" or not r.startswith("CallableRuntimeError|"):
+                continue
+            parts = r.split("|")
+            got_msg, got_type = "|".join(parts[1:-1]), parts[-1]
+            if (isinstance(want_msg, str) and got_msg != want_msg) or (isinstance(want_type, str) and got_type != want_type):
+                ctx.violation("replay-raises-different-error",
+                              f"{path}: the backend recorded ErrorType={want_type!r} ErrorMessage={want_msg!r}, a later call raised "
+                              f"type={got_type!r} message={got_msg[:60]!r}", scen_of(e))
+                return
 
 
 # ---- C02 ---------------------------------------------------------------------------------------------------
@@ -329,6 +354,14 @@ def c14(ctx, e):
                     # no serdes configured: result() returns exactly the delivered payload string (None when none was delivered)
                     from harness.interp import typed_repr
                     ok = rep == typed_repr(rec.get("_result"))
+                if ok and n["k"] == "invoke" and rec.get("_result") is not None:
+                    # default result serdes: the callee's JSON result decoded exactly once
+                    import json as _json
+                    from harness.interp import typed_repr
+                    try:
+                        ok = rep == typed_repr(_json.loads(rec["_result"]))
+                    except ValueError:
+                        pass
                 if not ok:
                     ctx.violation("outcome-unfaithful", f"{n['k']} {path}: backend SUCCEEDED({str(rec.get('_result'))[:40]}) but delivered {kind} {rep[:60]}",
                                   scen_of(e))
@@ -432,6 +465,13 @@ def c18(ctx, e):
         if st == "FAILED" and keys - {"Error"}:
             ctx.violation("malformed-output", f"FAILED with {keys}", scen_of(e))
             return
+        if st == "FAILED" and res.get("Error") is not None:
+            err = res["Error"]
+            bad = [k for k in ("ErrorMessage", "ErrorType", "ErrorData") if k in err and err[k] is not None and not isinstance(err[k], str)]
+            if not isinstance(err, dict) or bad or ("StackTrace" in err and err["StackTrace"] is not None
+                                                     and not (isinstance(err["StackTrace"], list) and all(isinstance(x, str) for x in err["StackTrace"]))):
+                ctx.violation("malformed-output", f"FAILED with an error object whose fields are not strings: {str(err)[:120]}", scen_of(e))
+                return
         if st == "SUCCEEDED" and "Result" in res:
             try:
                 json.loads(res["Result"]) if res["Result"] != "" else None
@@ -488,8 +528,12 @@ def c17(ctx, e):
     idx_of_id = {path_id(d["path"]): k for k, d in enumerate(instrs, 1) if d["kind"] in op_kinds}
     log_idx = {d["pt"]: k for k, d in enumerate(instrs, 1) if d["kind"] == "LOG"}
     parent_of = {k: d["parent"] for k, d in enumerate(instrs, 1)}
+    # a child context completes at the END of its body: log calls inside a body that is run again (oversized result replaced by a
+    # summary) precede that completion point
+    end_of_begin = {d["begin"]: k for k, d in enumerate(instrs, 1) if d["kind"] == "CHILD_END"}
     for r in e.invocations:
-        comp = {idx_of_id[o] for o, st in getattr(r, "ops_at_start", {}).items() if st in TERMINAL and o in idx_of_id}
+        comp = {end_of_begin.get(idx_of_id[o], idx_of_id[o]) for o, st in getattr(r, "ops_at_start", {}).items()
+                if st in TERMINAL and o in idx_of_id}
         small = r.split is not None and r.split[0] <= 1
         evs = r.events
         returned = False
